@@ -1,6 +1,10 @@
 package props
 
-import "encoding/json"
+import (
+	"encoding/json"
+
+	"github.com/RoaringBitmap/roaring/v2"
+)
 
 func jsonStr(v interface{}) string {
 	b, err := json.Marshal(v)
@@ -12,3 +16,5 @@ func jsonStr(v interface{}) string {
 	}
 	return string(b)
 }
+
+type rbm = roaring.Bitmap
